@@ -1,23 +1,106 @@
-(* C17 — Fortran sources.  Statements only (theorems are added as they are proved). *)
+(* C17 — Fortran sources: comment/continuation handling and preprocessor
+   conditionals.  Statements only. *)
 From Coq Require Import Bool Ascii String List.
-From CBI Require Import Lib.Res Lib.Data Model.C17 Spec.C17.
+From CBI Require Import Lib.Res Lib.Data Model.C01 Spec.C01 Model.C17 Spec.C17 Proofs.C17d Proofs.C17e.
 Import ListNotations.
 Local Open Scope string_scope.
 
+(* M = parse_fortran : c_file_source(directives_only=True), fortran_cleaner,
+   fortran_file_source and FileParser's grouping (Model/C17.v).
+   S = S_lines : the free-form reference scanner (Spec/C17.v).
+
+   For EVERY text (any number of lines, any line length, any 8-bit characters)
+   that is well formed in the sense of Spec/C17.v [wf], parsing succeeds and
+   the physical lines in the nodes' `lines`, each tagged directive node or
+   code node, in node order, are exactly the lines the reference scanner
+   counts, with the same tag: a line is counted iff it holds statement text
+   (outside ! comments; blanks, continuation marks and the blanks of a
+   character literal do not count), a sentinel comment  ! letters* $ , or is a
+   # line; comment, continuation and quote characters inside literals do not
+   start comments or continuations.
+
+   PARTIAL with respect to DESIGN section 5: [wf] excludes, besides what
+   Fortran forbids (a character literal neither closed nor continued at a line
+   end; a continuation still pending at end of file), every text with
+     - a backslash anywhere (C-level escapes and backslash-newline splices,
+       which the C pass applies before the Fortran cleaner),
+     - a / on a # line (C comments inside directives),
+     - a # that directly follows the leading & of a continuation line,
+     - a continuation line of a character literal that holds nothing but
+       blanks of that literal.
+   What happens there is covered by the differential run only (I vs M). *)
+Theorem C17_classification_partial :
+  forall ls : list pline, wf ls = true ->
+    exists nodes, parse_fortran ls = Ok nodes /\ tagged nodes = S_lines ls.
+Proof. exact classification. Qed.
+Print Assumptions C17_classification_partial.
+
+(* On the logical-line level a Fortran file yields the directive lines of the
+   C scanner: for every well-formed text the logical lines of category
+   CPP_DIRECTIVE that fortran_file_source hands to the parser are, in order
+   and with identical physical lines and identical text, those that
+   c_file_source(directives_only=True) produced, and every other line it hands
+   over is plain source.  (Outside [wf] the first half still holds, the second
+   does not: see C17_classification_refuted_amp_hash.) *)
+Theorem C17_directives_as_C :
+  forall ls : list pline, wf ls = true ->
+    exists L F, c_source true ls = Ok L /\ f_source ls = Ok F /\
+      filter fdir F = map fll_of_cll (filter cdir L) /\
+      (forall x, In x F -> fdir x = false -> f_cat x = SRC).
+Proof. exact directives_pass_through. Qed.
+Print Assumptions C17_directives_as_C.
+
+(* ... so that C01 applies verbatim: whatever DirectiveParser makes of the
+   text of a # line ([recog], the same function for every language), the node
+   sequence of a Fortran file is a C01 program, and when it is structured the
+   tree/visitor model attributes it exactly as the skipping preprocessor does. *)
+Theorem C17_C01_applies :
+  forall (ST ACT COND : Type) (mark : nat -> ST -> ST) (exec : ACT -> ST -> res ST)
+         (ev : COND -> ST -> res bool) (recog : list ascii -> kind ACT COND) (code : ACT)
+         (F : list fll) (its : list (item ACT COND)) (p : ST),
+    program ACT COND recog code F = flats ACT COND its ->
+    run_M ST ACT COND mark exec ev (program ACT COND recog code F) p =
+    run_S ST ACT COND mark exec ev (program ACT COND recog code F) p.
+Proof. exact fortran_program_as_C. Qed.
+Print Assumptions C17_C01_applies.
+
+Definition lines_of (s : string) : list pline := split_lines [] (list_of_string s).
+Definition nl : string := String (ascii_of_nat 10) "".
+
+(* Each guard of [wf] beyond Fortran's own rules is needed - without it the
+   statement is false of the faithful model (closed witnesses):
+   (1) # directly after the leading & of a continuation line: the Fortran cleaner
+       makes a directive of its own, which the parser treats as #if;
+   (2) a continuation line of a literal holding only blanks of it is counted
+       when the blanks are two or more (here: one before the &, one after);
+   (3) a backslash is taken as a C escape, so 'a\' leaves the literal open and
+       the whole file is rejected (RuntimeError). *)
+Theorem C17_classification_refuted_amp_hash :
+  exists ls, parse_fortran ls = Ok [(true, [2]); (false, [3])]%nat /\ S_lines ls = [(2, false); (3, false)]%nat.
+Proof. exists (lines_of ("&" ++ nl ++ "&#if X" ++ nl ++ "a" ++ nl)). vm_compute. split; reflexivity. Qed.
+Print Assumptions C17_classification_refuted_amp_hash.
+
+Theorem C17_classification_refuted_blank_literal :
+  exists ls, parse_fortran ls = Ok [(false, [1; 2; 3])]%nat /\ S_lines ls = [(1, false); (3, false)]%nat.
+Proof. exists (lines_of ("x='a&" ++ nl ++ " & &" ++ nl ++ "&b'" ++ nl)). vm_compute. split; reflexivity. Qed.
+Print Assumptions C17_classification_refuted_blank_literal.
+
+Theorem C17_classification_refuted_backslash :
+  exists ls, (exists e, parse_fortran ls = Err e) /\ S_lines ls = [(1, false); (2, false)]%nat.
+Proof.
+  exists (lines_of ("x = 'a" ++ String (ascii_of_nat 92) "'" ++ nl ++ "y = 1" ++ nl)). vm_compute.
+  split; [eexists|]; reflexivity.
+Qed.
+Print Assumptions C17_classification_refuted_backslash.
+
 (* non-vacuity: a well-formed text with a continued statement whose literal
    holds ! and &, a comment line and a directive inside the continuation, a
-   sentinel and an ordinary comment *)
+   split literal with a doubled quote, a sentinel and an ordinary comment *)
 Definition C17_example : list pline :=
-  split_lines [] (list_of_string
-    ("x = 'a!&b' // &" ++ String (ascii_of_nat 10)
-    ("  ! note" ++ String (ascii_of_nat 10)
-    ("#ifdef F" ++ String (ascii_of_nat 10)
-    ("  & 'c''d'" ++ String (ascii_of_nat 10)
-    ("#endif" ++ String (ascii_of_nat 10)
-    ("!$omp barrier" ++ String (ascii_of_nat 10)
-    ("! $omp not" ++ String (ascii_of_nat 10) "")))))))).
+  lines_of ("x = 'a!&b' // &" ++ nl ++ "  ! note" ++ nl ++ "#ifdef F" ++ nl ++ "  & 'c''d&" ++ nl ++
+            "   &e'" ++ nl ++ "#endif" ++ nl ++ "!$omp barrier" ++ nl ++ "! $omp not" ++ nl).
 Example C17_nonvacuous :
   wf C17_example = true /\
-  S_lines C17_example = [(1, false); (3, true); (4, false); (5, true); (6, false)]%nat /\
-  parse_fortran C17_example = Ok [(false, [1]); (true, [3]); (false, [4]); (true, [5]); (false, [6])]%nat.
+  S_lines C17_example = [(1, false); (3, true); (4, false); (5, false); (6, true); (7, false)]%nat /\
+  parse_fortran C17_example = Ok [(false, [1]); (true, [3]); (false, [4; 5]); (true, [6]); (false, [7])]%nat.
 Proof. vm_compute. repeat split; reflexivity. Qed.
